@@ -43,6 +43,17 @@ def twin_programs(tier):
     return out
 
 
+def root_cause(detail):
+    """Class of a twin that does not build: the first rustc error message and the generated Rust line it points at, with
+    numbers erased - the same defect reached through different rule x context twins is one class, whichever twins a tier
+    happens to enumerate."""
+    m = re.search(r"error(?:\[E\d+\])?: ([^\n]*)\n(?:[^\n]*\n){0,3}?\s*\d+ \| ([^\n]*)", detail or "")
+    if not m:
+        return "-"
+    norm = lambda t: re.sub(r"[^A-Za-z0-9_(){}|=>&.:,\[\]]+", "_", re.sub(r"\d+", "N", t.strip()))[:60].strip("_")
+    return norm(m.group(1)) + "|at:" + norm(m.group(2))
+
+
 def run(tier):
     common.build(need_cli=True)
     pipe.warm()
@@ -90,7 +101,7 @@ def run(tier):
             l1_fail[sig[0]] = kind
     by_key = {}
     for sig, src, kind, detail in twin_fail:
-        key = f"twin:{sig[0]}|{kind}" if l1_fail.get(sig[0]) == kind else "twin:" + "@".join(sig[:2]) + f"|{kind}"
+        key = f"twin|{kind}|{root_cause(detail)}"
         by_key.setdefault(key, []).append({"program": src, "sig": list(sig), "detail": detail})
     for key, cs in by_key.items():
         cs.sort(key=lambda c: (len(c["sig"]), len(c["program"])))
